@@ -169,6 +169,11 @@ def iv_faults(i, n):
     return f
 
 
+def at_all(name, i, n, fn):
+    """the same fault at every position p < n of positional argument i"""
+    return [("%s@%d" % (name, p), i, (lambda a, p=p: fn(a, p))) for p in range(n)]
+
+
 def drop_last(i):
     return ("drop-one", i, lambda a: a[:-1] if isinstance(a, np.ndarray) else list(a)[:-1])
 
@@ -189,9 +194,10 @@ def entries():
     E.append(Entry("onset.evaluate", onset.evaluate, [b_r, b_e], ev_faults(0, 5) + ev_faults(1, 4)))
     # alignment
     a_r, a_e = (lambda: A([0.5, 1.0, 2.0])), (lambda: A([0.5, 1.25, 2.5]))
-    al = [("unsorted", 0, lambda a: _swap(a, 0)), ("unsorted", 1, lambda a: _swap(a, 1)),
+    al = at_all("unsorted", 0, 2, _swap) + at_all("unsorted", 1, 2, _swap) + [
           ("2-d", 0, lambda a: a.reshape(1, -1)), ("2-d", 1, lambda a: a.reshape(1, -1)),
           ("negative", 0, lambda a: _set(a, 0, -0.5)), ("negative", 1, lambda a: _set(a, 0, -0.5)),
+          ("all-negative", 0, lambda a: a - 10.0), ("all-negative", 1, lambda a: a - 10.0),
           drop_last(0), drop_last(1), add_one(1), ("empty-reference", 0, lambda a: a[:0]),
           ("not-an-array", 0, lambda a: a.tolist())]
     for f in ("absolute_error", "percentage_correct", "percentage_correct_segments", "karaoke_perceptual_metric",
@@ -200,11 +206,12 @@ def entries():
     # tempo
     t = [lambda: A([60.0, 120.0]), lambda: 0.25, lambda: A([64.0, 120.0])]
     tf = [("size-1", 0, lambda a: a[:1]), ("size-3", 0, lambda a: np.append(a, 90.0)), ("size-1", 2, lambda a: a[:1]),
-          ("size-3", 2, lambda a: np.append(a, 90.0)), ("negative", 0, lambda a: _set(a, 0, -60.0)),
-          ("negative", 2, lambda a: _set(a, 1, -1.0)), ("nan", 0, lambda a: _set(a, 1, np.nan)),
-          ("nan", 2, lambda a: _set(a, 0, np.nan)), ("inf", 2, lambda a: _set(a, 0, np.inf)),
+          ("size-3", 2, lambda a: np.append(a, 90.0)), ("inf", 0, lambda a: _set(a, 1, np.inf)),
           ("both-zero-reference", 0, lambda a: a * 0.0), ("weight<0", 1, lambda w: -0.25),
-          ("weight>1", 1, lambda w: 1.25)]
+          ("weight>1", 1, lambda w: 1.25)] + \
+        at_all("negative", 0, 2, lambda a, p: _set(a, p, -60.0)) + at_all("negative", 2, 2, lambda a, p: _set(a, p, -1.0)) + \
+        at_all("nan", 0, 2, lambda a, p: _set(a, p, np.nan)) + at_all("nan", 2, 2, lambda a, p: _set(a, p, np.nan)) + \
+        at_all("inf", 2, 2, lambda a, p: _set(a, p, np.inf))
     E.append(Entry("tempo.detection", tempo.detection, t, tf))
     E.append(Entry("tempo.evaluate", tempo.evaluate, t, tf))
     E.append(Entry("tempo.detection[tol]", lambda r, w, e, tol: tempo.detection(r, w, e, tol=tol),
@@ -219,14 +226,19 @@ def entries():
     m = [lambda: A([0.0, 1.0, 1.0, 0.0]), lambda: A([0.0, 5350.0, 5350.0, 0.0]), lambda: A([0.0, 1.0, 1.0, 1.0]),
          lambda: A([0.0, 5350.0, 5390.0, 4150.0])]
     mf = [drop_last(i) for i in range(4)] + [add_one(i) for i in range(4)]
-    vf = [("voicing<0", 0, lambda a: _set(a, 1, -0.1)), ("voicing>1", 2, lambda a: _set(a, 1, 1.5))]
+    vf = []
+    for i in (0, 2):
+        vf += at_all("voicing<0", i, 4, lambda a, p: _set(a, p, -0.1)) + at_all("voicing>1", i, 4, lambda a, p: _set(a, p, 1.5))
     for f in ("raw_pitch_accuracy", "raw_chroma_accuracy", "overall_accuracy"):
         E.append(Entry("melody.%s" % f, getattr(melody, f), m, mf + vf))
     mv = [m[0], m[2]]
     for f in ("voicing_recall", "voicing_false_alarm", "voicing_measures"):
         E.append(Entry("melody.%s" % f, getattr(melody, f), mv,
-                       [drop_last(0), drop_last(1), add_one(0), ("voicing<0", 0, lambda a: _set(a, 1, -0.1)),
-                        ("voicing>1", 1, lambda a: _set(a, 1, 1.5))]))
+                       [drop_last(0), drop_last(1), add_one(0)] +
+                       at_all("voicing<0", 0, 4, lambda a, p: _set(a, p, -0.1)) +
+                       at_all("voicing>1", 0, 4, lambda a, p: _set(a, p, 1.5)) +
+                       at_all("voicing<0", 1, 4, lambda a, p: _set(a, p, -0.1)) +
+                       at_all("voicing>1", 1, 4, lambda a, p: _set(a, p, 1.5))))
     mt = [lambda: A([0.0, 0.25, 0.5, 0.75]), lambda: A([0.0, 220.0, 220.0, 0.0]), lambda: A([0.0, 0.25, 0.5, 0.75]),
           lambda: A([0.0, 220.0, -225.0, 110.0])]
     # melody.evaluate: no melody validator documents a time/frequency length check (to_cent_voicing resamples),
@@ -246,17 +258,20 @@ def entries():
     mpf = [drop_last(0), drop_last(1), drop_last(2), drop_last(3), add_one(1), add_one(3),
            ("unsorted-times", 0, lambda a: _swap(a, 0)), ("unsorted-times", 2, lambda a: _swap(a, 1)),
            ("2-d-times", 0, lambda a: a.reshape(1, -1)), ("too-large-time", 2, lambda a: _set(a, -1, 1e5)),
-           ("freq<20", 1, lambda fr: fset(fr, 0, 10.0)), ("freq>5000", 1, lambda fr: fset(fr, 2, 6000.0)),
-           ("freq<20", 3, lambda fr: fset(fr, 1, 19.0)), ("freq>5000", 3, lambda fr: fset(fr, 2, 5001.0)),
-           ("freq<=0", 3, lambda fr: fset(fr, 0, 0.0)), ("freq-negative", 1, lambda fr: fset(fr, 0, -440.0))]
+           ("freq-negative", 1, lambda fr: fset(fr, 0, -440.0))]
+    for i, frames_with_freq in ((1, (0, 2)), (3, (0, 1, 2))):
+        for k in frames_with_freq:
+            for nm, v in (("freq<20", 19.0), ("freq>5000", 5001.0), ("freq=0", 0.0)):
+                mpf.append(("%s@frame%d" % (nm, k), i, (lambda fr, k=k, v=v: fset(fr, k, v))))
     E.append(Entry("multipitch.metrics", multipitch.metrics, mp, mpf))
     E.append(Entry("multipitch.evaluate", multipitch.evaluate, mp, mpf))
     # transcription
     n = [lambda: A([[0.0, 0.5], [0.5, 1.0], [1.0, 2.0]]), lambda: A([440.0, 220.0, 330.0]),
          lambda: A([[0.04, 0.5], [0.5, 1.25]]), lambda: A([442.0, 220.0])]
-    nf = iv_faults(0, 3) + iv_faults(2, 2) + [drop_last(1), drop_last(3), add_one(1), add_one(3),
-                                                ("pitch<=0", 1, lambda a: _set(a, 1, 0.0)),
-                                                ("pitch<=0", 3, lambda a: _set(a, 0, -440.0))]
+    def pitch_faults(i, n):
+        return [("pitch=%g@%d" % (v, p), i, (lambda a, p=p, v=v: _set(a, p, v))) for p in range(n) for v in (0.0, -440.0)]
+    nf = iv_faults(0, 3) + iv_faults(2, 2) + [drop_last(1), drop_last(3), add_one(1), add_one(3)] + \
+        pitch_faults(1, 3) + pitch_faults(3, 2)
     E.append(Entry("transcription.precision_recall_f1_overlap", transcription.precision_recall_f1_overlap, n, nf))
     E.append(Entry("transcription.evaluate", transcription.evaluate, n, nf))
     ni = [n[0], n[2]]
@@ -265,9 +280,9 @@ def entries():
     E.append(Entry("transcription.offset_precision_recall_f1", transcription.offset_precision_recall_f1, ni, nif))
     nv = [n[0], n[1], lambda: A([64.0, 100.0, 30.0]), n[2], n[3], lambda: A([60.0, 90.0])]
     nvf = iv_faults(0, 3) + iv_faults(3, 2) + [drop_last(1), drop_last(2), drop_last(4), drop_last(5), add_one(2),
-                                                 add_one(5), ("pitch<=0", 1, lambda a: _set(a, 0, 0.0)),
-                                                 ("velocity<0", 2, lambda a: _set(a, 0, -1.0)),
-                                                 ("velocity<0", 5, lambda a: _set(a, 1, -0.5))]
+                                                 add_one(5)] + pitch_faults(1, 3) + pitch_faults(4, 2) + \
+        [("velocity<0@%d" % p, 2, (lambda a, p=p: _set(a, p, -1.0))) for p in range(3)] + \
+        [("velocity<0@%d" % p, 5, (lambda a, p=p: _set(a, p, -0.5))) for p in range(2)]
     E.append(Entry("transcription_velocity.precision_recall_f1_overlap",
                    transcription_velocity.precision_recall_f1_overlap, nv, nvf))
     E.append(Entry("transcription_velocity.evaluate", transcription_velocity.evaluate, nv, nvf))
